@@ -49,6 +49,7 @@ Theorem C08_member_index_in : forall h x sh d, p_indexin None h x = Ok (Arr TNum
 Proof. exact member_index_in. Qed.
 Theorem C08_reshape_deshape : forall a, wf a -> Forall (fun n => Z.of_nat n <= amt_limit)%Z (ash a) ->
   (zprod (map Z.of_nat (ash a)) * Z.max 1 (Z.of_nat (length (adata a))) <= size_limit)%Z ->
+  (length (ash a) <= 8)%nat ->
   p_reshape None false (map (fun n => AInt (Z.of_nat n)) (ash a)) (p_deshape a) = Ok a.
 Proof. exact reshape_deshape. Qed.
 (** rise_sorts *)
